@@ -1,161 +1,15 @@
-(* Monitors/Mon_C05.v — case type, model-vs-implementation comparison and the decidable
-   monitor of C05 applied to the IMPLEMENTATION's observations. *)
+(* Monitors/Mon_C05.v — case types, model-vs-implementation comparison and the decidable
+   monitor of C05 (defined in Cesium/ControlMonitor.v) applied to the IMPLEMENTATION's
+   observations; concurrent-history and end-to-end variants. *)
 From stdpp Require Import prelude.
 From Coq Require Import NArith ZArith.
-From Synnax Require Import Common.Base Cesium.Control.
+From Synnax Require Import Common.Base Cesium.Control Cesium.ControlMonitor.
 Local Open Scope N_scope.
 
-(* ---- observations (plain tuples so that decidable equality is derived) ---- *)
-(* handle, subject, authority, resource (PeekResource), authorized 0/1, resource returned by Authorize *)
-Definition gobs : Type := N * N * N * N * N * N.
-Definition xobs : Type := option cstate * option cstate.
-(* status code, gate returned, transfer, resource returned by Release *)
-Definition oobs : Type := N * bool * xobs * N.
-(* start, end, counter, resource, curr (subject, authority, position, in gates), gates by position *)
-Definition robs : Type := Z * Z * N * N * option (N * N * N * bool) * list (N * N * N).
-Definition sobs : Type := list gobs * option cstate * list robs.
-Definition iout : Type := oobs * sobs.
 Definition case_t : Type := bool * list (op * iout).
-
-Definition gh (g : gobs) : N := g.1.1.1.1.1.
-Definition gsubj (g : gobs) : N := g.1.1.1.1.2.
-Definition gauth (g : gobs) : N := g.1.1.1.2.
-Definition gres (g : gobs) : N := g.1.1.2.
-Definition gaz (g : gobs) : N := g.1.2.
-
-Definition st_code (s : ostat) : N :=
-  match s with Ok => 0 | Unauth => 1 | Valid => 2 | Multi => 3 | ResFail => 4 | Skip => 5 | Panic => 6 | Config => 7 end.
-
-(* ---- the model's observations ---- *)
-Fixpoint insN (x : N) (l : list N) : list N :=
-  match l with [] => [x] | y :: r => if x <=? y then x :: l else y :: insN x r end.
-Definition sortN (l : list N) : list N := foldr insN [] l.
-
-Definition obs_gate (shared : bool) (s : ctl) (h : N) : gobs :=
-  match region_of h (c_regions s) with
-  | Some r =>
-      match find_gate h (r_gates r) with
-      | Some g => let '(az, ar) := authorize shared s h in
-                  (h, g_subj g, g_auth g, r_res r, if az then 1 else 0, ar)
-      | None => (h, 0, 0, 0, 0, 0)
-      end
-  | None => (h, 0, 0, 0, 0, 0)
-  end.
-
-Definition obs_region (r : region) : robs :=
-  (t_start (r_tr r), t_end (r_tr r), r_counter r, r_res r,
-   match r_curr r with
-   | Some h => match find_gate h (r_gates r) with
-               | Some g => Some (g_subj g, g_auth g, g_pos g, true)
-               | None => None
-               end
-   | None => None
-   end,
-   map (fun g => (g_subj g, g_auth g, g_pos g)) (r_gates r)).
-
-Definition obs_state (shared : bool) (s : ctl) : sobs :=
-  (map (obs_gate shared s) (sortN (c_live s)), leading_state s, map obs_region (c_regions s)).
-
-Definition obs_out (o : out) : oobs :=
-  (st_code (out_st o), out_gate o, (x_from (out_x o), x_to (out_x o)), out_res o).
-
-Fixpoint model_trace (fixed shared : bool) (s : ctl) (ops : list op) : list iout :=
-  match ops with
-  | [] => []
-  | o :: rest =>
-      let '(s', ou) := step fixed shared s o in
-      (obs_out ou, obs_state shared s') :: model_trace fixed shared s' rest
-  end.
 
 Definition mismatch (c : case_t) : bool :=
   negb (bool_decide (model_trace true c.1 init (map fst c.2) = map snd c.2)).
-
-(* ---- the property, stated on what the implementation showed ---- *)
-(* gates of region [rho] in order of open ([order] = live handles, earliest open first) *)
-Definition members (rho : N) (gs : list gobs) (order : list N) : list gobs :=
-  flat_map (fun h => filter (fun g => bool_decide (gh g = h) && bool_decide (gres g = rho)) gs) order.
-(* highest authority, ties to the earliest open *)
-Fixpoint leader (ms : list gobs) : option gobs :=
-  match ms with
-  | [] => None
-  | g :: rest =>
-      match leader rest with
-      | None => Some g
-      | Some m => if gauth m <=? gauth g then Some g else Some m
-      end
-  end.
-Definition spec_holder (gs : list gobs) (order : list N) (rho : N) : option cstate :=
-  match leader (members rho gs order) with
-  | Some g => Some (gsubj g, gauth g, rho)
-  | None => None
-  end.
-
-Definition xoccurred (x : xobs) : bool := occurred (X x.1 x.2).
-
-Definition hmap : Type := list (N * cstate).
-Definition hget (H : hmap) (rho : N) : option cstate :=
-  match filter (fun kv => bool_decide (kv.1 = rho)) H with kv :: _ => Some kv.2 | [] => None end.
-Definition hdel (H : hmap) (rho : N) : hmap := filter (fun kv => negb (bool_decide (kv.1 = rho))) H.
-Definition happly (H : hmap) (x : xobs) : hmap :=
-  if xoccurred x then
-    match x.2, x.1 with
-    | Some t, _ => (t.2, t) :: hdel H t.2
-    | None, Some f => hdel H f.2
-    | None, None => H
-    end
-  else H.
-
-Fixpoint dedup (l : list N) : list N :=
-  match l with [] => [] | x :: r => if existsb (N.eqb x) r then dedup r else x :: dedup r end.
-
-Record mstate := MS { m_gs : list gobs; m_order : list N; m_H : hmap }.
-
-Definition next_order (order : list N) (o : op) (st : N) : list N :=
-  match o with
-  | Open c => if st =? 0 then order ++ [o_h c] else order
-  | Release h => if st =? 0 then filter (fun k => negb (k =? h)) order else order
-  | SetAuth _ _ => order
-  end.
-
-Definition ok_step (shared : bool) (m : mstate) (o : op) (io : iout) : bool * mstate :=
-  let '((st, _, x, _), (gs, lead, _)) := io in
-  let order := next_order (m_order m) o st in
-  let H := happly (m_H m) x in
-  let rhos := dedup (map gres (m_gs m) ++ map gres gs ++ map fst H) in
-  let before := spec_holder (m_gs m) (m_order m) in
-  let after := spec_holder gs order in
-  (* the harness reports exactly the gates the caller holds *)
-  let c1 := bool_decide (map gh gs = sortN order) in
-  (* the controller is the highest authority / earliest open; Authorize agrees with it *)
-  let c2 := forallb (fun g =>
-              match leader (members (gres g) gs order) with
-              | None => false
-              | Some l =>
-                  let should := if shared then bool_decide (gauth g = gauth l)
-                                else bool_decide (gh g = gh l) in
-                  bool_decide (gaz g = if should then 1 else 0)
-              end) gs in
-  (* exactly one transfer, with the right previous and next holder *)
-  let changed := filter (fun rho => negb (bool_decide (before rho = after rho))) rhos in
-  let c3 := match changed with
-            | [] => negb (xoccurred x)
-            | [rho] => bool_decide (x = (before rho, after rho))
-            | _ => false
-            end in
-  (* the transfers so far reconstruct the current holders *)
-  let c4 := forallb (fun rho => bool_decide (hget H rho = after rho)) rhos in
-  (* LeadingState names the holder of its region *)
-  let c5 := match lead with
-            | None => match gs with [] => true | _ => false end
-            | Some s => bool_decide (after s.2 = Some s)
-            end in
-  (c1 && c2 && c3 && c4 && c5, MS gs order H).
-
-Fixpoint ok_trace (shared : bool) (m : mstate) (tr : list (op * iout)) : bool :=
-  match tr with
-  | [] => true
-  | (o, io) :: rest => let '(b, m') := ok_step shared m o io in b && ok_trace shared m' rest
-  end.
 
 Definition ok_C05 (c : case_t) : bool := ok_trace c.1 (MS [] [] []) c.2.
 Definition violates (c : case_t) : bool := negb (ok_C05 c).
@@ -218,48 +72,8 @@ Fixpoint lin (fuel : nat) (shared : bool) (s : ctl) (pend : list cev) : bool :=
 Definition conc_reject (c : conc_case_t) : bool := negb (lin (S (length c.2)) c.1 init c.2).
 Definition conc_rejects (cs : list conc_case_t) : list nat := find_idx conc_reject cs.
 
-(* ---- end-to-end cases: cesium writers on one index channel ---- *)
-Inductive eop := EOpen (w subj auth : N) (eou : bool) | EWrite (w n : N) | ESet (w a : N) | EClose (w : N).
-(* status code, authorized flag (2 = not a write), stamps carried by the write *)
-Definition eobs : Type := N * N * list Z.
+(* ---- end-to-end cases (model in Cesium/ControlMonitor.v) ---- *)
 Definition e2e_case_t : Type := bool * list (eop * eobs) * list Z.
-
-Definition ts_max : Z := 9223372036854775807.
-Fixpoint stamps (next : Z) (n : nat) : list Z :=
-  match n with O => [] | S k => next :: stamps (next + 1)%Z k end.
-
-Record estate := ES { e_ctl : ctl; e_next : Z; e_store : list Z }.
-
-(* the writer layer over the control model: a write is persisted iff its gate authorizes *)
-Definition e2e_step (shared : bool) (s : estate) (o : eop) : estate * eobs :=
-  match o with
-  | EOpen w sj au eou =>
-      let c := OCfg w sj au (TR (e_next s * 1000000000)%Z ts_max) false eou false in
-      let '(c', ou) := step true shared (e_ctl s) (Open c) in
-      (ES c' (e_next s) (e_store s), (st_code (out_st ou), 2, []))
-  | ESet w a =>
-      let '(c', ou) := step true shared (e_ctl s) (SetAuth w a) in
-      (ES c' (e_next s) (e_store s), (st_code (out_st ou), 2, []))
-  | EClose w =>
-      let '(c', ou) := step true shared (e_ctl s) (Release w) in
-      (ES c' (e_next s) (e_store s), (st_code (out_st ou), 2, []))
-  | EWrite w n =>
-      if existsb (N.eqb w) (c_live (e_ctl s)) then
-        let k := N.to_nat (N.max n 1) in
-        let ts := stamps (e_next s) k in
-        let az := fst (authorize shared (e_ctl s) w) in
-        (ES (e_ctl s) (e_next s + Z.of_nat k)%Z (if az then e_store s ++ ts else e_store s),
-         (0, if az then 1 else 0, ts))
-      else (s, (5, 2, []))
-  end.
-
-Fixpoint e2e_run (shared : bool) (s : estate) (ops : list eop) : list eobs * list Z :=
-  match ops with
-  | [] => ([], e_store s)
-  | o :: rest =>
-      let '(s', ob) := e2e_step shared s o in
-      let '(obs, st) := e2e_run shared s' rest in (ob :: obs, st)
-  end.
 
 Definition e2e_mismatch (c : e2e_case_t) : bool :=
   let '(shared, tr, rd) := c in
